@@ -1041,6 +1041,27 @@ func c07r8(c *Ctx) {
 			ok := false
 			switch x := l.(type) {
 			case *ssa.Call:
+				// the selection extracted into a function of the package: every non-nil return lies under both tests there
+				if sc := x.Call.StaticCallee(); sc != nil && len(sc.Blocks) > 0 && funcPkgPath(sc) == funcPkgPath(fn) {
+					ns, sel := edgesOf(sc)
+					good, any := true, false
+					for _, b := range sc.Blocks {
+						r, isR := b.Instrs[len(b.Instrs)-1].(*ssa.Return)
+						if !isR || len(r.Results) != 1 {
+							continue
+						}
+						if k, isC := retVal(r, 0).(*ssa.Const); isC && k.IsNil() {
+							continue
+						}
+						any = true
+						if !(underEdges(sc, b, ns) && underEdges(sc, b, sel)) {
+							good = false
+						}
+					}
+					if any && good {
+						ok = true
+					}
+				}
 				// a find helper with a predicate literal
 				for _, a := range x.Call.Args {
 					lit := litOfFuncValue(a)
